@@ -54,8 +54,14 @@ def gen_case(rng, kind, subtype):
     else:
         w, h = 2 ** int(rng.integers(0, 12)), 2 ** int(rng.integers(0, 12))
         ox, oy = int(rng.integers(-1000, 1000)), int(rng.integers(-1000, 1000))
+    fine = 0
+    if exact and fl and subtype == "float64" and rng.random() < 0.25:
+        # extent far smaller than the coordinate magnitude (still a power of two: exact scaling)
+        fine = int(rng.integers(3, 11))
     if not exact:
         w, h = int(rng.integers(1, 50)), int(rng.integers(1, 50))
+    if fine:
+        w = h = 2.0 ** -fine
     tb = [ox, oy, ox + w, oy + h]
     dg = int(rng.integers(10))
     if dg == 0:
@@ -65,14 +71,14 @@ def gen_case(rng, kind, subtype):
     elif dg == 2:
         tb[2], tb[3] = tb[0], tb[1]
     # elements: coordinates on the quarter grid (floats) / integer grid, around the extent
-    q = 4 if fl else 1
+    q = (4 * 2 ** fine) if fine else (4 if fl else 1)
     m = int(rng.integers(1, 8))
     els = []
     for _ in range(m):
         def cx():
-            return int(rng.integers(q * ox - 2 * q, q * (ox + w) + 2 * q + 1)) / q
+            return int(rng.integers(q * ox - 8, int(q * (ox + w)) + 9)) / q
         def cy():
-            return int(rng.integers(q * oy - 2 * q, q * (oy + h) + 2 * q + 1)) / q
+            return int(rng.integers(q * oy - 8, int(q * (oy + h)) + 9)) / q
         def flat_(k):
             out = []
             for _i in range(k):
@@ -112,6 +118,8 @@ def gen_case(rng, kind, subtype):
     if emp and rng.random() < 0.4:
         els.insert(int(rng.integers(0, len(els) + 1)), emp[int(rng.integers(len(emp)))])
     tbt = TB_TYPES[int(rng.integers(len(TB_TYPES)))]
+    if fine and tbt in ("ndarray-int", "list-int"):
+        tbt = "ndarray"                     # integer sequences cannot express a fractional extent
     return {"kind": kind, "subtype": subtype, "elements": els, "tb": tb, "tb_type": tbt, "p": p,
             "exact": exact, "seed": int(rng.integers(2 ** 31))}
 
